@@ -824,6 +824,7 @@ func cmdCheck(args []string) {
 		known *known
 	}
 	var confirmed []outV
+	var unreproducedV []string
 	seen := map[string]bool{}
 	sort.Slice(agg.viols, func(i, j int) bool {
 		a, b := agg.viols[i].rp, agg.viols[j].rp
@@ -847,12 +848,23 @@ func cmdCheck(args []string) {
 				agg.inconclusive++
 				continue
 			} else if code != 1 {
-				s.cleanup()
-				die(2, "non-deterministic harness: violation %s (%s) did not reproduce in a fresh process (exit %d); replay file %s", v.rp.Class, v.rp.Signature, code, v.file)
+				// not shown again in a fresh process: never reported. When nothing else of this batch is confirmed
+				// either, the check cannot decide and says so (exit 2) below; when other violations are, this one is
+				// counted in a NOTE (typically a run that met state an earlier run of its process had left behind in a
+				// library that keeps state - what the confirmed violations are about)
+				unreproducedV = append(unreproducedV, fmt.Sprintf("%s (%s), exit %d, replay file %s", v.rp.Class, v.rp.Signature, code, v.file))
+				continue
 			}
 		}
 		seen[key] = true
 		confirmed = append(confirmed, outV{v.rp, v.file, matchKnown(ks, v.rp)})
+	}
+	if len(unreproducedV) > 0 && len(confirmed) == 0 {
+		s.cleanup()
+		die(2, "non-deterministic harness: %d violations did not reproduce in a fresh process and none did, e.g. %s", len(unreproducedV), unreproducedV[0])
+	}
+	if len(unreproducedV) > 0 {
+		fmt.Printf("NOTE: %d violations found by workers did not reproduce in a fresh process and are not reported (others of the same batch did), e.g. %s\n", len(unreproducedV), unreproducedV[0])
 	}
 	nViol := 0
 	for _, v := range confirmed {
